@@ -125,7 +125,7 @@ def aggregate(results):
            'lines_hit': set(), 'lines_total': 0, 'worlds': 0}
     for r in results:
         agg['worlds'] += 1
-        agg['hashseeds'].add(r['hashseed'])
+        agg['hashseeds'].update(r.get('hashseeds_all', [r['hashseed']]))
         agg['runs'] += r['runs']
         agg['ticks'] += r['ticks']
         agg['nontrivial'] += r['nontrivial']
